@@ -245,7 +245,8 @@ func vBuildSmallTrees() (int, []string) {
 	// item kinds (quotes of the four kinds, strings, counters, attr() with and without a type), under
 	// three values of the quotes property, on a paragraph holding a <q>
 	items := []string{"open-quote", "close-quote", "no-open-quote", "no-close-quote", `"s"`, "counter(c)", "counters(c, '.')",
-		"attr(title)", "attr(title string)", "attr(href url)", "attr(nohref url)", "attr(frag url)", "target-counter(attr(nohref url), c)"}
+		"attr(title)", "attr(title string)", "attr(href url)", "attr(nohref url)", "attr(frag url)", "target-counter(attr(nohref url), c)",
+		"content()", "content(before)", "content(first-letter)", "content(marker)"}
 	var contents []string
 	for _, a := range items {
 		contents = append(contents, a)
@@ -262,8 +263,19 @@ func vBuildSmallTrees() (int, []string) {
 			}
 		}
 	}
+	// list markers: every list-style-type among keywords, strings (empty included), symbols() and author counter
+	// styles with empty symbols, inside and outside, with four start values of the list-item counter
+	for _, lst := range []string{"disc", "decimal", "none", "''", "'x'", "symbols(cyclic '')", "symbols(cyclic 'a' '')", "symbols(numeric '' '')", "e", "f", "undefined-style"} {
+		for _, pos := range []string{"inside", "outside"} {
+			for _, reset := range []string{"", "counter-reset: list-item -1;", "counter-reset: list-item 5;", "counter-set: list-item 0;"} {
+				build("marker "+lst+" "+pos+" "+reset, fmt.Sprintf(
+					`<style>@counter-style e { system: cyclic; symbols: ''; suffix: '' } @counter-style f { system: fixed; symbols: '' 'b'; prefix: ''; suffix: '' } `+
+						`li { list-style: %s %s } li::after { content: content(marker) }</style><ul style="%s"><li>a</li><li>b</li></ul>`, lst, pos, reset))
+			}
+		}
+	}
 	return n, fails
 }
 
-//@ bounded vBuildSmallTrees BuildFormattingStructure on every document of three elements (chain and fork) over 15 display values, with separated and collapsed borders (13 500 documents), 64 counter-property combinations, and 9 464 generated-content documents (::before of one or two items and ::after of one item over 13 kinds: the four quote keywords, strings, counters, attr() with string and url types, present and missing; under four values of quotes): no panic, the root is a block
+//@ bounded vBuildSmallTrees BuildFormattingStructure on every document of three elements (chain and fork) over 15 display values, with separated and collapsed borders (13 500 documents), 64 counter-property combinations, and 20808 generated-content documents (::before of one or two items and ::after of one item over 17 kinds: the four quote keywords, strings, counters, attr() with string and url types, present and missing, content() of four kinds; under four values of quotes), 88 list-marker documents (11 list-style-type values incl. empty strings and counter styles with empty symbols x position x 4 list-item counter settings): no panic, the root is a block
 //@   props C01
